@@ -30,6 +30,8 @@ pub static MAX_SINGLE: AtomicUsize = AtomicUsize::new(0);
 pub static CAP: AtomicUsize = AtomicUsize::new(usize::MAX);
 /// requests above this are refused (null) no matter what the kernel would do
 pub const HARD_REFUSE: usize = 64 << 20;
+/// ... and so is any request once the live bytes of one decode exceed this (many medium-sized requests)
+pub const HARD_REFUSE_TOTAL: isize = 256 << 20;
 pub static CASE_IDX: AtomicU32 = AtomicU32::new(0);
 pub static STAGE: AtomicU32 = AtomicU32::new(0);
 pub static OVERSIZE_REPORTED: AtomicBool = AtomicBool::new(false);
@@ -95,7 +97,7 @@ impl CountingAlloc {
                 if !OVERSIZE_REPORTED.swap(true, Ordering::Relaxed) {
                     report_oversize(if size > cap { size } else { above as usize }, if size > cap { "single" } else { "total" });
                 }
-                if size > HARD_REFUSE {
+                if size > HARD_REFUSE || above > HARD_REFUSE_TOTAL {
                     LIVE.fetch_sub(size as isize, Ordering::Relaxed);
                     return false;
                 }
@@ -276,8 +278,12 @@ pub fn type_dump(t: &ColumnType) -> String {
 }
 
 fn dump_colspecs(cols: &[ColumnSpec], out: &mut String) {
-    for c in cols {
-        out.push_str(&format!("  col {}.{}.{} : {}\n", c.table_spec().ks_name(), c.table_spec().table_name(), c.name(), type_dump(c.typ())));
+    // (same abbreviation rules as frames::dump_colspecs: the text must stay small for huge metadata)
+    for c in cols.iter().take(crate::frames::DUMP_MAX_COLS) {
+        out.push_str(&format!("  col {}.{}.{} : {}\n", crate::frames::abbrev(c.table_spec().ks_name()), crate::frames::abbrev(c.table_spec().table_name()), crate::frames::abbrev(c.name()), type_dump(c.typ())));
+    }
+    if cols.len() > crate::frames::DUMP_MAX_COLS {
+        out.push_str(&format!("  ... {} more columns\n", cols.len() - crate::frames::DUMP_MAX_COLS));
     }
 }
 
